@@ -187,3 +187,57 @@ Example ex_idle_stretch :
   let sh := fst (step cf s (ITick KHeader [OFail FErr; OFail FNotIncluded; OFail FDeadline; OAccept 302])) in
   map (fun cl => length (c_hs cl)) (firstn 4 (calls (s_h sh))) = [301; 301; 301; 301]%nat /\ vol (s_h sh) = 302.
 Proof. vm_compute. repeat split; try reflexivity; try discriminate. Qed.
+
+(* FROM TRANSLATED CODE.  The recorded last-submitted height never decreases: pendingBase.setLastSubmittedHeight,
+   translated from /repo's source on every run (Check/GoLiteFiles.v), for ALL current and new heights replaces the
+   in-memory watermark iff the new height is GREATER, and only then writes that same height to the store (a failing
+   store write is logged and changes nothing else). *)
+From Verif Require Check.GoLiteFiles Model.GoLite.
+From Coq Require String.
+Theorem C06_translated_watermark_only_moves_up_full : forall cur new key put_ok,
+  GoLiteFiles.run_calls [(GoLiteFiles.le_name, GoLite.VUnit)] GoLiteFiles.set_name
+                        (Some (GoLiteFiles.pb_v cur key put_ok)) [GoLiteFiles.ctx; GoLite.VN new]
+  = Some (GoLiteFiles.watermark_expect cur new key).
+Proof. exact GoLiteFiles.go_setLastSubmittedHeight. Qed.
+Print Assumptions C06_translated_watermark_only_moves_up_full.
+
+(* REFINEMENT FROM TRANSLATED CODE.  [submit] is what the retry loop of submitToDA does — the Go loop itself
+   (block/submitter.go), translated from /repo's source on every run as ONE ITERATION over the loop's locals and
+   evaluated by Model/GoLite.v with the DA helper, the postSubmit callback and the timer as scripted collaborators
+   (Check/GoLiteSubmitLoop.v: [go_submitToDA_iter], for ALL locals, configurations and helper answers).  [submit_unfold]:
+   one unfolding of [submit] is [model_attempt]; and for EVERY state of the model's loop the translated iteration does
+   what [model_attempt] says: on a success with count c, postSubmit receives exactly the first c remaining items and
+   exactly these leave `remaining` (finished iff c is all of them, backoff 0); on any other answer nothing is marked and
+   nothing dropped, with the model's next backoff; a cancellation returns nil. *)
+From Verif Require Proofs.GoLiteSubmitLoopRefine Check.GoLiteSubmitLoop.
+From Coq Require Import ZArith.
+Theorem C06_submit_unfolds_to_attempt_full : forall c f b rem o sc sd el,
+  submit c (S f) b rem (o :: sc) sd el =
+  let n := N.of_nat (length rem) in
+  let sd1 := log_call rem o sd in
+  let el' := (el + b + call_cost o)%N in
+  match GoLiteSubmitLoopRefine.model_attempt c b rem o with
+  | GoLiteSubmitLoopRefine.ADone marked => (set_last (last_height marked) sd1, sc, RDone, el')
+  | GoLiteSubmitLoopRefine.AGoOn b' rem' marked =>
+      submit c f b' rem' sc (match marked with Some l => set_last (last_height l) sd1 | None => sd1 end) el'
+  | GoLiteSubmitLoopRefine.ACancelled => (sd1, sc, RCancelled, el')
+  end.
+Proof. exact GoLiteSubmitLoopRefine.submit_unfold. Qed.
+Print Assumptions C06_submit_unfolds_to_attempt_full.
+
+Theorem C06_translated_loop_iteration_refines_submit_full : forall (c : cfg) (f : nat) (b done : N) (rem : list N) (o : outcome),
+  (f < 30)%nat ->
+  exists x, GoLiteSubmitLoop.run_iter (GoLiteSubmitLoopRefine.lworld_of c (S f) b done rem o) = Some x /\
+    let n := N.of_nat (length rem) in
+    match GoLiteSubmitLoopRefine.model_attempt c b rem o with
+    | GoLiteSubmitLoopRefine.ADone marked =>
+        GoLiteSubmitLoopRefine.post_segment x = Some (done, done + N.of_nat (length marked)) /\
+        GoLiteSubmitLoopRefine.next_locals x = Some (true, 0%Z, done + n, done + n)
+    | GoLiteSubmitLoopRefine.AGoOn b' rem' marked =>
+        GoLiteSubmitLoopRefine.post_segment x = option_map (fun l => (done, done + N.of_nat (length l))) marked /\
+        GoLiteSubmitLoopRefine.next_locals x = Some (false, Z.of_N b', done + (n - N.of_nat (length rem')), done + n)
+    | GoLiteSubmitLoopRefine.ACancelled =>
+        GoLiteSubmitLoopRefine.returned_nil x = true /\ GoLiteSubmitLoopRefine.post_segment x = None
+    end.
+Proof. exact GoLiteSubmitLoopRefine.translated_iter_refines_submit. Qed.
+Print Assumptions C06_translated_loop_iteration_refines_submit_full.
